@@ -87,7 +87,14 @@ func makeURLKey(u *url.URL) string {
 	// Also see https://datatracker.ietf.org/doc/html/rfc7230#section-2.7.3
 	// RFC 3986 §6.2.2.2: Normalize percent-encoding in path - before the dot segments
 	// are removed, so that "%2E" and "%2e%2E" are recognised as the dot segments they are.
-	path := removeDotSegments(normalizePercentEncoding(u.EscapedPath()))
+	path := u.EscapedPath()
+	if path != "" && path[0] != '/' {
+		// A rootless path (url.URL{Host: "node", Path: "1/metrics"}, as URL.JoinPath
+		// produces on a URL without a path) is sent as "/1/metrics": without the
+		// slash the key would read "http://node1/metrics" - another host's.
+		path = "/" + path
+	}
+	path = removeDotSegments(normalizePercentEncoding(path))
 	if path == "" && (scheme == "http" || scheme == "https") {
 		path = "/"
 	}
